@@ -176,6 +176,12 @@ func ScanSnapshot(in io.Reader, prefix io.Writer, opts *Opts) (*Snapshot, []byte
 		var d []byte
 		if d, err = r.readLine(); len(d) != 0 {
 			l, err1 := s.scan(d)
+			if len(s.released) != 0 {
+				if _, err2 := prefix.Write(s.released); err2 != nil && err1 == nil {
+					err1 = err2
+				}
+				s.released = nil
+			}
 			if err1 != nil && (err == nil || err == io.EOF) {
 				err = err1
 			}
@@ -451,6 +457,9 @@ type scanningState struct {
 	state          state
 	prefix         []byte
 	goroutineIndex int
+	// held is the race report preamble consumed so far. released is a preamble
+	// that turned out not to start a race report; it is forwarded as is.
+	held, released []byte
 }
 
 func isFramesElidedLine(line []byte) bool {
@@ -569,6 +578,7 @@ func (s *scanningState) scan(line []byte) (bool, error) {
 		if bytes.Equal(trimmed, raceHeaderFooter) {
 			// TODO(maruel): We should buffer it in case the next line is not a
 			// WARNING so we can output it back.
+			s.held = append(s.held[:0], line...)
 			s.state = gotRaceHeader1
 			return true, nil
 		}
@@ -680,14 +690,16 @@ func (s *scanningState) scan(line []byte) (bool, error) {
 		if bytes.Equal(trimmed, raceHeader) {
 			// TODO(maruel): We should buffer it in case the next line is not a
 			// WARNING so we can output it back.
+			s.held = append(s.held, line...)
 			s.state = gotRaceHeader2
 			return true, nil
 		}
-		// TODO(maruel): While this shouldn't error out, it should still force the
-		// output of raceHeaderFooter.
+		// Not a race report: output raceHeaderFooter back and look at this line
+		// again.
 		s.state = looking
 		s.prefix = nil
-		return false, nil
+		s.released, s.held = append(s.released, s.held...), nil
+		return s.scan(line)
 
 	case gotRaceHeader2:
 		if match := reRaceOperationHeader.FindSubmatch(trimmed); match != nil {
@@ -706,9 +718,14 @@ func (s *scanningState) scan(line []byte) (bool, error) {
 			s.Goroutines = append(make([]*Goroutine, 0, 4), &Goroutine{ID: id, First: true, RaceWrite: w, RaceAddr: addr})
 			s.goroutineIndex = len(s.Goroutines) - 1
 			s.state = gotRaceOperationHeader
+			s.held = nil
 			return true, nil
 		}
-		return false, fmt.Errorf("expected race condition, got: %q", bytes.TrimSpace(trimmed))
+		// Not a race report: output the two header lines back and look at this
+		// line again.
+		s.state = looking
+		s.released, s.held = append(s.released, s.held...), nil
+		return s.scan(line)
 
 	case gotRaceOperationHeader:
 		c := Call{}
